@@ -417,7 +417,7 @@ fn neighbours_intact(wd: &World, n: &Node, seen: &mut HashSet<u32>, root: u32, d
             return;
         }
     }
-    for s in n.t.iter().chain(n.h.iter()) {
+    for s in n.t.iter().chain(n.h.iter()).chain(std::iter::once(&*n.md)) {
         let p = s.borrow().as_ref().map(|c| &**c as *const Node);
         if let Some(p) = p {
             neighbours_intact(wd, unsafe { &*p }, seen, root, depth + 1);
@@ -494,7 +494,8 @@ pub fn on_glue_end(wd: &World, id: u32) {
             return;
         }
         o.glue_pending = false;
-        targets = o.t.iter().chain(o.h.iter()).flatten().cloned().collect();
+        // (the ManuallyDrop slot, index NT, is not released by the glue)
+        targets = o.t[..NT].iter().chain(o.h.iter()).flatten().cloned().collect();
         // callbacks that ran during the glue (destructors of solely owned objects, cleaning actions and whatever
         // they did) may have moved the targets in or out of the buffer after the slot was released
         quiet = o.glue_mark == wd.cb_total.get();
@@ -1004,7 +1005,8 @@ pub fn try_unwrap_ok(wd: &World, id: u32, pre: &PreUnwrap, v: &Node) {
     let Some(o) = m.obj_mut(id) else { return };
     o.val = Val::Unwrapped;
     // slots must be what the program stored
-    for (i, s) in v.t.iter().enumerate() {
+    for i in 0..NTM {
+        let s = v.tslot(i).unwrap();
         if s.borrow().as_ref().map(|c| c.id) != o.t[i] {
             wd.err("C13", "try_unwrap_value_damaged", "try_unwrap_slot_changed".into(), format!("traced slot {} of the value moved out of #{} differs from what the program stored", i, id));
         }
@@ -1278,7 +1280,8 @@ impl<'a> Walk<'a> {
                 None => wd.err("C01", "reachable_box_freed", "reachable_box_not_allocated".into(), format!("{}: the box of reachable object #{} is not an allocated block", via, id)),
             }
         }
-        for (i, s) in n.t.iter().enumerate() {
+        for i in 0..NTM {
+            let s = n.tslot(i).unwrap();
             let b = s.borrow();
             match (b.as_ref(), o.t[i]) {
                 (Some(c), e) => self.handle(c, e, &format!("#{}.t{}", id, i)),
@@ -1537,7 +1540,7 @@ pub fn current_state_hash(wd: &World) -> u64 {
         if n.canary_state() != CanaryState::Good || !seen.insert(n.id) {
             return;
         }
-        for s in n.t.iter().chain(n.h.iter()) {
+        for s in n.t.iter().chain(n.h.iter()).chain(std::iter::once(&*n.md)) {
             if let Some(c) = s.borrow().as_ref() {
                 let sn = verif::object_snapshot(c);
                 h.u64(c.id as u64);
